@@ -506,7 +506,36 @@ func (w *World) forwarder(c *Chain) common.Address {
 		panic("deploy batching contract: " + r.Log + r.VMError)
 	}
 	w.Fwd["double/"+c.ChainID] = crypto.CreateAddress(user.Eth, nonce)
+	nonce = c.App.EvmKeeper.GetNonce(c.Ctx(), user.Eth)
+	if r := c.DeliverEth(user, nil, nil, proxyCode("lookalike", endpAddr)); !r.OK() {
+		panic("deploy look-alike emitter: " + r.Log + r.VMError)
+	}
+	w.Fwd["lookalike/"+c.ChainID] = crypto.CreateAddress(user.Eth, nonce)
 	return addr
+}
+
+// SendFake: the user calls a contract of its own that emits, from its own address, a log with the topic and the data
+// of the packet contract's PacketSent event: a transfer of `amt` to the user of dst, numbered with the next send
+// sequence.  No token moves; the chain must not treat it as a send.
+func (w *World) SendFake(src, dst string, amt int64) TxResult {
+	c := w.Chains[src]
+	user := c.Accts[AcctUser]
+	w.forwarder(c)
+	seq := c.App.XIBCKeeper.PacketKeeper.GetNextSequenceSend(c.Ctx(), w.ID[src], w.ID[dst])
+	td, err := (&packettypes.TransferData{Token: strings.ToLower(w.Origin[src].String()), OriToken: "", Amount: big.NewInt(amt).Bytes(),
+		Receiver: strings.ToLower(userOf(w, dst).Eth.String())}).ABIPack()
+	must(err)
+	p := packettypes.Packet{SrcChain: w.ID[src], DstChain: w.ID[dst], Sequence: seq, Sender: strings.ToLower(user.Eth.String()),
+		TransferData: td, CallData: []byte{}, CallbackAddress: zeroAddr.String(), FeeOption: 0}
+	bz, err := p.ABIPack()
+	must(err)
+	evt := packetABI.Events["PacketSent"]
+	data, err := evt.Inputs.NonIndexed().Pack(bz)
+	must(err)
+	to := w.Fwd["lookalike/"+c.ChainID]
+	r := c.DeliverEth(user, addrp(to), nil, append(evt.ID.Bytes(), data...))
+	w.harvest(src, r)
+	return r
 }
 
 func userOf(w *World, n string) Acct {
